@@ -219,6 +219,6 @@ def generate(rnd, tier, scale):
                     dice.append(_rand_h(rnd))
             yield dict(k="proll", dice=dice)
         elif r < 0.92:
-            yield dict(k="choices", weights=[rnd.choice([0, 0, 1, 1, 2, 3, 5]) for _ in range(rnd.randint(1, 6))] + [1], frac=rnd.choice([0.0, 0.5, 0.999]))
+            yield dict(k="choices", weights=[rnd.choice([0, 0, 1, 1, 2, 3, 5]) for _ in range(rnd.randint(1, 6))] + [1], frac=rnd.choice([0.001, 0.5, 0.999]))  # never exactly on a boundary: u/tot*tot is not u in floats
         else:
             yield dict(k="swap", h=_rand_h(rnd), dice=[_rand_h(rnd) for _ in range(rnd.randint(1, 3))], seed=rnd.choice([0, 0, rnd.randint(0, 10**6)]))
